@@ -854,6 +854,9 @@ def cigar_cycle(ctx, ali, rows2, ref, seg, ri, si, introns, dm, hc, itg, as_stri
     ctx.op("write_alignment_to_cigar")
     kwargs = dict(reference_index=ri, segment_index=si, introns=introns_arg, distinguish_matches=dm,
                   hard_clip=hc, include_terminal_gaps=itg, as_string=as_string)
+    from vf.core import drop_defaults
+    kwargs = drop_defaults(ctx, kwargs, dict(reference_index=0, segment_index=1, introns=(), distinguish_matches=False,
+                                             hard_clip=False, include_terminal_gaps=False, as_string=True))
     if reject is not None:
         ctx.oracle("cigar_rejects_invalid")
         try:
